@@ -21,6 +21,7 @@ import (
 	"0chain.net/smartcontract/multisigsc"
 	"github.com/0chain/common/core/currency"
 	"github.com/0chain/common/core/statecache"
+	"github.com/0chain/common/core/util"
 	"github.com/herumi/bls-go-binary/bls"
 
 	"verif/harness/common"
@@ -59,6 +60,7 @@ type drv struct {
 	t0      int64
 	sc      string
 	wallets []*wallet
+	last    *world.Snap
 }
 
 func init() { common.Register("multisig", Run) }
@@ -329,6 +331,42 @@ func (d *drv) emit(res world.Result, op, kind string, wl *wallet, by *world.Key,
 	d.rc.Emit(m, shape, res.Class == "ok")
 }
 
+// exec does what world.DoRec does (real Chain.UpdateState + the Ledger family's Txn event built by
+// world.TxnEvent from two full snapshots of the MPT), with the one field it cannot know filled in: signed_ok,
+// the signed transfers of this transaction whose signature the harness re-verified (Ledger C04 authorises the
+// debit of a third party only by those).
+func (d *drv) exec(ts world.TxnSpec, wl *wallet, propID string) world.Result {
+	w := d.w
+	txn := w.MakeTxn(ts)
+	pre := d.snap()
+	res := w.Exec(txn)
+	post := d.snap()
+	signedOK := []pair{}
+	if propID != "" && res.Class == "ok" {
+		if p := d.readProposal(wl.group.ID, propID); p.Exists && p.ExecutedInTxnHash == txn.Hash {
+			if stored, ok := d.readWallet(wl.group.ID); ok {
+				st := state.SignedTransfer{Transfer: state.Transfer{ClientID: p.From, ToClientID: p.To, Amount: currency.Coin(p.Amount)},
+					SchemeName: stored.SignatureScheme, PublicKey: stored.PublicKey, Sig: p.ClientSignature}
+				if st.VerifySignature(true) == nil {
+					over := false
+					signedOK = append(signedOK, pair{w.Name(p.From), capI(p.Amount, &over)})
+				}
+			}
+		}
+	}
+	m, shape, nt := w.TxnEvent(res, pre, post, rec.M{"src": "multisig", "signed_ok": signedOK})
+	d.rc.Emit(m, shape, nt)
+	return res
+}
+
+func (d *drv) snap() *world.Snap {
+	root := util.ToHex(d.w.CurState.GetRoot())
+	if d.last == nil || d.last.Root != root {
+		d.last = d.w.Snapshot(d.w.CurState)
+	}
+	return d.last
+}
+
 func (d *drv) register(wl *wallet, by *world.Key, t int, kind string) world.Result {
 	w := d.w
 	reg := multisigsc.Wallet{ClientID: wl.group.ID, SignatureScheme: scheme, PublicKey: wl.group.Pub, NumRequired: t}
@@ -337,7 +375,7 @@ func (d *drv) register(wl *wallet, by *world.Key, t int, kind string) world.Resu
 		reg.SignerPublicKeys = append(reg.SignerPublicKeys, s.Pub)
 	}
 	wPre := w.Balance(wl.group.ID)
-	res := w.DoRec(d.rc, world.TxnSpec{From: by, To: d.sc, Type: transaction.TxnTypeSmartContract, Fn: "register", Input: reg}, rec.M{"src": "multisig"})
+	res := d.exec(world.TxnSpec{From: by, To: d.sc, Type: transaction.TxnTypeSmartContract, Fn: "register", Input: reg}, wl, "")
 	d.emit(res, "register", kind, wl, by, "", state.Transfer{ClientID: wl.group.ID, ToClientID: wl.group.ID}, "", multisigsc.VerifProposal{}, wPre, wPre)
 	return res
 }
@@ -349,7 +387,7 @@ func (d *drv) vote(wl *wallet, by, signKey *world.Key, propID string, tr state.T
 	v := multisigsc.Vote{ProposalID: propID, Transfer: tr, Signature: sig}
 	pre := d.readProposal(wl.group.ID, propID)
 	wPre, rPre := w.Balance(wl.group.ID), w.Balance(tr.ToClientID)
-	res := w.DoRec(d.rc, world.TxnSpec{From: by, To: d.sc, Type: transaction.TxnTypeSmartContract, Fn: "vote", Input: v}, rec.M{"src": "multisig"})
+	res := d.exec(world.TxnSpec{From: by, To: d.sc, Type: transaction.TxnTypeSmartContract, Fn: "vote", Input: v}, wl, propID)
 	d.emit(res, "vote", kind, wl, by, propID, tr, sig, pre, wPre, rPre)
 	return res
 }
@@ -468,7 +506,7 @@ func (d *drv) random(id int, a common.Args) {
 			v := multisigsc.Vote{ProposalID: propID, Transfer: tr, Signature: sig}
 			pre := d.readProposal(wl.group.ID, propID)
 			wPre, rPre := w.Balance(wl.group.ID), w.Balance(tr.ToClientID)
-			res := w.DoRec(d.rc, world.TxnSpec{From: signer, To: d.sc, Type: transaction.TxnTypeSmartContract, Fn: "vote", Input: v}, rec.M{"src": "multisig"})
+			res := d.exec(world.TxnSpec{From: signer, To: d.sc, Type: transaction.TxnTypeSmartContract, Fn: "vote", Input: v}, wl, propID)
 			d.emit(res, "vote", "sig_of_other_transfer", wl, signer, propID, tr, sig, pre, wPre, rPre)
 		case x < 84: // a stranger, signing with his own key
 			st := w.Clients[r.Intn(len(w.Clients))]
